@@ -623,6 +623,20 @@ func OracleC02(w *World, h *History) {
 				}
 			}
 		}
+		// the grpc.Header locations while the stream is still open
+		if first := firstRecvOK(r); first != nil && first.Res != nil && first.Res.Extra != nil && p.OptHeader && !first.Res.Terminal {
+			if ht, ok := first.Res.Extra["hdr_target_inflight"].(metadata.MD); ok {
+				h.Derived["probe.header_location_read_in_flight"]++
+				if !mdEqual(ht, expHdr) {
+					w.AddViolation("C02", "header-mismatch", fmt.Sprintf("rpc %d: grpc.Header target right after the first response message (stream still open) = %s, handler set %s", id, mdString(ht), mdString(expHdr)), det("via", "grpc.Header-in-flight", "values", utf), first.Ret)
+				}
+				if two, _ := first.Res.Extra["two_targets"].(bool); two {
+					if b, _ := first.Res.Extra["hdr_target0_inflight"].(metadata.MD); !mdEqual(ht, b) {
+						w.AddViolation("C02", "header-mismatch", fmt.Sprintf("rpc %d: two grpc.Header locations were passed; right after the first response message one holds %s, the other %s", id, mdString(b), mdString(ht)), det("via", "grpc.Header-second-location-in-flight", "values", utf), first.Ret)
+					}
+				}
+			}
+		}
 		// later reads
 		for _, o := range r.Ops {
 			if !o.Returned() || (o.Actor != "cr" && o.Actor != "c") {
